@@ -1155,4 +1155,218 @@ theorem split_feed {codes : List Nat} {gs : List (List Nat)} (h : Split codes gs
     rw [feed_ext2_short hg _ _ (by simpa using hl), feed_nil]
 
 
+/-- a list of ints as `parse_graphic_sequence` receives it -/
+abbrev ints (l : List Nat) : List Code := l.map (fun (c : Nat) => Code.int (c : Int))
+
+theorem pgsLoop_nil (b : Bool) (st : PgsSt) : pgsLoop b [] st = st := by rw [pgsLoop]
+
+theorem ints_head5 {rest : List Nat} (h : rest.head? ≠ some 5) : (ints rest).head? ≠ some (Code.int 5) := by
+  cases rest with
+  | nil => simp
+  | cons m t =>
+    simp only [List.head?_cons, ne_eq, Option.some.injEq] at h
+    simp only [ints, List.map_cons, List.head?_cons, ne_eq, Option.some.injEq, Code.int.injEq]
+    omega
+
+theorem ints_head2 {rest : List Nat} (h : rest.head? ≠ some 2) : (ints rest).head? ≠ some (Code.int 2) := by
+  cases rest with
+  | nil => simp
+  | cons m t =>
+    simp only [List.head?_cons, ne_eq, Option.some.injEq] at h
+    simp only [ints, List.map_cons, List.head?_cons, ne_eq, Option.some.injEq, Code.int.injEq]
+    omega
+
+theorem split_loop {codes : List Nat} {gs : List (List Nat)} (h : Split codes gs) :
+    ∀ (l : Int) (o : List Str), (pgsLoop false (ints codes) ⟨l, [], o⟩).out = o ++ gs.map joinNats := by
+  induction h with
+  | nil => intro l o; simp [pgsLoop_nil]
+  | single c rest gs hc _ ih =>
+    intro l o
+    have e : ints (c :: rest) = Code.int (c : Int) :: ints rest := rfl
+    rw [e, loop_single hc, ih]
+    simp [joinNats_single]
+  | skip c rest gs hc h5 h2 _ ih =>
+    intro l o
+    have e : ints (c :: rest) = Code.int (c : Int) :: ints rest := rfl
+    rw [e, loop_skip hc _ (ints_head5 h5) (ints_head2 h2), ih]
+  | idx c n rest gs hc hn _ ih =>
+    intro l o
+    have e : ints (c :: 5 :: n :: rest) = Code.int (c : Int) :: Code.int 5 :: Code.int (n : Int) :: ints rest := rfl
+    have e2 : joinInts ([(c : Int)] ++ [5] ++ [(n : Int)]) = joinNats [c, 5, n] := joinInts_natCast [c, 5, n]
+    rw [e, loop_open5 hc, loop_cont _ _ _ _ _ (by simp) (by omega),
+      loop_flush _ _ _ _ _ (by simp) (by omega), e2, parsable_idx hc, ih]
+    simp [hn]
+  | idxBad c n rest gs hc hn _ ih =>
+    intro l o
+    have e : ints (c :: 5 :: n :: rest) = Code.int (c : Int) :: Code.int 5 :: Code.int (n : Int) :: ints rest := rfl
+    have e2 : joinInts ([(c : Int)] ++ [5] ++ [(n : Int)]) = joinNats [c, 5, n] := joinInts_natCast [c, 5, n]
+    rw [e, loop_open5 hc, loop_cont _ _ _ _ _ (by simp) (by omega),
+      loop_flush _ _ _ _ _ (by simp) (by omega), e2, parsable_idx hc, ih]
+    simp [hn]
+  | idxEnd c hc =>
+    intro l o
+    have e : ints [c, 5] = [Code.int (c : Int), Code.int 5] := rfl
+    rw [e, loop_open5 hc, loop_cont _ _ _ _ _ (by simp) (by omega), pgsLoop_nil]
+    simp
+  | rgb c r g b rest gs hc hk _ ih =>
+    intro l o
+    have e : ints (c :: 2 :: r :: g :: b :: rest) =
+      Code.int (c : Int) :: Code.int 2 :: Code.int (r : Int) :: Code.int (g : Int) :: Code.int (b : Int) :: ints rest := rfl
+    have e2 : joinInts ([(c : Int)] ++ [2] ++ [(r : Int)] ++ [(g : Int)] ++ [(b : Int)]) = joinNats [c, 2, r, g, b] :=
+      joinInts_natCast [c, 2, r, g, b]
+    rw [e, loop_open2 hc, loop_cont _ _ _ _ _ (by simp) (by omega), loop_cont _ _ _ _ _ (by simp) (by omega),
+      loop_cont _ _ _ _ _ (by simp) (by omega),
+      loop_flush _ _ _ _ _ (by simp) (by omega), e2, parsable_rgb hc, ih]
+    simp [hk]
+  | rgbBad c r g b rest gs hc hk _ ih =>
+    intro l o
+    have e : ints (c :: 2 :: r :: g :: b :: rest) =
+      Code.int (c : Int) :: Code.int 2 :: Code.int (r : Int) :: Code.int (g : Int) :: Code.int (b : Int) :: ints rest := rfl
+    have e2 : joinInts ([(c : Int)] ++ [2] ++ [(r : Int)] ++ [(g : Int)] ++ [(b : Int)]) = joinNats [c, 2, r, g, b] :=
+      joinInts_natCast [c, 2, r, g, b]
+    rw [e, loop_open2 hc, loop_cont _ _ _ _ _ (by simp) (by omega), loop_cont _ _ _ _ _ (by simp) (by omega),
+      loop_cont _ _ _ _ _ (by simp) (by omega),
+      loop_flush _ _ _ _ _ (by simp) (by omega), e2, parsable_rgb hc, ih]
+    simp [hk]
+  | rgbEnd c tail hc hl =>
+    intro l o
+    match tail, hl with
+    | [], _ =>
+      have e : ints [c, 2] = [Code.int (c : Int), Code.int 2] := rfl
+      rw [e, loop_open2 hc, loop_cont _ _ _ _ _ (by simp) (by omega), pgsLoop_nil]
+      simp
+    | [r], _ =>
+      have e : ints [c, 2, r] = [Code.int (c : Int), Code.int 2, Code.int (r : Int)] := rfl
+      rw [e, loop_open2 hc, loop_cont _ _ _ _ _ (by simp) (by omega),
+        loop_cont _ _ _ _ _ (by simp) (by omega), pgsLoop_nil]
+      simp
+    | [r, g], _ =>
+      have e : ints [c, 2, r, g] = [Code.int (c : Int), Code.int 2, Code.int (r : Int), Code.int (g : Int)] := rfl
+      rw [e, loop_open2 hc, loop_cont _ _ _ _ _ (by simp) (by omega),
+        loop_cont _ _ _ _ _ (by simp) (by omega), loop_cont _ _ _ _ _ (by simp) (by omega), pgsLoop_nil]
+      simp
+
+
+/-! ## `add_erroneous=True`: every token survives -/
+
+theorem intStr_noSemi (v : Int) : ∀ c ∈ Py.intStr v, c ≠ ';' := by
+  intro c hc
+  unfold Py.intStr at hc
+  split at hc
+  · rcases List.mem_cons.1 hc with rfl | hc
+    · decide
+    · exact natStr_noSemi _ c hc
+  · exact natStr_noSemi _ c hc
+
+theorem split_joinInts {cur : List Int} (h : cur ≠ []) :
+    Py.splitOnChar ';' (joinInts cur) = cur.map Py.intStr := by
+  unfold joinInts semi
+  apply splitOnChar_joinSep
+  · simpa using h
+  · intro a ha
+    obtain ⟨n, _, rfl⟩ := List.mem_map.1 ha
+    exact intStr_noSemi n
+
+/-- the tokens a loop state holds: those of the finished settings, then the open group -/
+def tokens (st : PgsSt) : List Str := st.out.flatMap (Py.splitOnChar ';') ++ st.cur.map Py.intStr
+
+theorem loop_true_step (v : Int) (rest : List Code) (st : PgsSt) :
+    ∃ st1, pgsLoop true (Code.int v :: rest) st = pgsLoop true rest st1 ∧
+      tokens st1 = tokens st ++ [Py.intStr v] := by
+  rw [pgsLoop]
+  simp only [Bool.not_true, Bool.false_eq_true, and_false, if_false]
+  have key : ∀ left : Int, ∃ st1,
+      (if left - 1 ≤ 0 then
+            pgsLoop true rest
+              { left := left - 1,
+                out :=
+                  if (true || (st.cur ++ [v]).length == 1 || SettingTxt.parsable (joinInts (st.cur ++ [v]))) = true then
+                    st.out ++ [joinInts (st.cur ++ [v])]
+                  else st.out }
+          else pgsLoop true rest { left := left - 1, cur := st.cur ++ [v], out := st.out }) =
+        pgsLoop true rest st1 ∧ tokens st1 = tokens st ++ [Py.intStr v] := by
+    intro left
+    by_cases hl : left - 1 ≤ 0
+    · refine ⟨_, by rw [if_pos hl], ?_⟩
+      simp [tokens, split_joinInts]
+    · refine ⟨_, by rw [if_neg hl], ?_⟩
+      simp [tokens]
+  by_cases hc : st.cur.isEmpty = true
+  · simp only [hc, if_true]; exact key _
+  · simp only [hc]; exact key _
+
+
+theorem loop_true_tokens (codes : List Nat) : ∀ st : PgsSt,
+    tokens (pgsLoop true (ints codes) st) = tokens st ++ codes.map Py.natStr := by
+  induction codes with
+  | nil => intro st; simp [pgsLoop_nil]
+  | cons c rest ih =>
+    intro st
+    obtain ⟨st1, h1, h2⟩ := loop_true_step (c : Int) (ints rest) st
+    have e : ints (c :: rest) = Code.int (c : Int) :: ints rest := rfl
+    rw [e, h1, ih, h2, intStr_natCast]
+    simp
+
+theorem pgsItems_true_tokens (codes : List Nat) :
+    (pgsItems (ints codes) true).flatMap (Py.splitOnChar ';') = codes.map Py.natStr := by
+  have h := loop_true_tokens codes {}
+  simp only [tokens] at h
+  unfold pgsItems
+  simp only [and_true]
+  cases hc : (pgsLoop true (ints codes) {}).cur with
+  | nil => rw [hc] at h; simpa using h
+  | cons a t =>
+    rw [hc] at h
+    simp only [List.isEmpty_cons, Bool.not_false, if_true, List.flatMap_append, List.flatMap_cons,
+      List.flatMap_nil, List.append_nil]
+    rw [split_joinInts (by simp)]
+    exact h
+
+theorem pgsItemsOfList_ints (l : List Nat) : pgsItemsOfList (ints l) = ints l := by
+  simp [pgsItemsOfList, ints, List.map_map, Function.comp_def]
+
+theorem pgsList_ints {codes : List Nat} (h : codes ≠ []) (b : Bool) :
+    pgsList (ints codes) b = pgsItems (ints codes) b := by
+  have : (ints codes).isEmpty = false := by cases codes <;> simp_all [ints]
+  simp [pgsList, this, pgsItemsOfList_ints]
+
+theorem pgsItems_false {codes : List Nat} {gs : List (List Nat)} (h : Split codes gs) :
+    pgsItems (ints codes) false = gs.map joinNats := by
+  unfold pgsItems
+  simp only [Bool.false_eq_true, and_false, if_false]
+  simpa using split_loop h 0 []
+
+theorem pgsItemsOfStr_joinNats {codes : List Nat} (h : codes ≠ []) :
+    pgsItemsOfStr (joinNats codes) = ints codes := by
+  rw [pgsItemsOfStr, split_joinNats h, List.map_map]
+  apply List.map_congr_left
+  intro n _
+  have hs := natStr_spec n
+  simp [strip_digits hs.2.1, int_natStr]
+
+theorem joinNats_ne_nil {codes : List Nat} (h : codes ≠ []) : joinNats codes ≠ [] := by
+  intro e
+  have := split_joinNats h
+  rw [e] at this
+  match codes, h with
+  | c :: rest, _ =>
+    simp [Py.splitOnChar] at this
+    exact (natStr_spec c).1 this.1
+
+theorem pgsStr_joinNats {codes : List Nat} (h : codes ≠ []) (b : Bool) :
+    pgsStr (joinNats codes) b = pgsList (ints codes) b := by
+  have : (joinNats codes).isEmpty = false := by
+    simpa [List.isEmpty_iff] using joinNats_ne_nil h
+  rw [pgsList_ints h, pgsStr, this]
+  simp [pgsItemsOfStr_joinNats h]
+
+theorem codesOf_groups (gs : List (List Nat)) (h : ∀ g ∈ gs, g ≠ []) :
+    codesOf ((gs.map joinNats).map (fun t => (⟨0, t⟩ : Setting))) = gs.flatten.map some := by
+  induction gs with
+  | nil => rfl
+  | cons g gs ih =>
+    simp only [List.map_cons, codesOf_cons, List.flatten_cons, List.map_append]
+    rw [params_joinNats (h g (by simp)), ih (fun x hx => h x (by simp [hx]))]
+
+
 end Eff
